@@ -75,6 +75,8 @@ pub fn fp_rules() -> Vec<FpRule> {
         rb("let-abstract", "(mul ?a ?b)", "(let $z (mul (var $z) ?b) ?a)"),
         // chains of substitutions (applied left to right; the first replacement may mention the variable replaced second)
         rbs("let-let-flatten", "(let $x (let $y ?b ?f) ?e)", "?b[(var $y) := ?f][(var $x) := ?e]"),
+        // a left side with two binders that uses the inner bound slot explicitly next to variables inside and outside its scope
+        rb("let-sum-mul-var", "(let $x (sum $i (mul (var $i) ?b)) ?e)", "(sum $i (let $x (mul (var $i) ?b) ?e))"),
         rbs("let-sum-unroll", "(let $x (sum $y ?b) ?e)", "(add ?b[(var $y) := 0][(var $x) := ?e] ?b[(var $y) := 1][(var $x) := ?e])"),
     ]
 }
